@@ -356,6 +356,14 @@ func (e *Enc) execUnOp(in *ssa.UnOp) {
 		t := e.load(e.cur, l)
 		t = e.define("ld_"+in.Name(), e.sortOf(in.Type()), t)
 		e.vals[in] = Val{T: t}
+		if fa, ok := in.X.(*ssa.FieldAddr); ok {
+			if st, ok2 := fa.X.Type().Underlying().(*types.Pointer).Elem().Underlying().(*types.Struct); ok2 {
+				// `at [every] load <field>`: res0 is the value read
+				e.atResTypes = []types.Type{in.Type()}
+				e.applyAts("load", st.Field(fa.Field).Name(), in.Pos(), nil, []Val{{T: t}})
+				e.atResTypes = nil
+			}
+		}
 		if _, fresh := e.allocFreshLoc(l); !fresh {
 			st := e.cur
 			if l.Heap != "" {
